@@ -118,7 +118,7 @@ def run_case(sim, seed, i):
         stats["skipped"] = "generator_rejected"
         # whatever made the command fail on the package as generated (a rule this workload generator does not know, an error
         # that only a code generator notices): it failed, so it must not have written anything either
-        if good.get("status") == "returned" and good.get("ops") is not None:
+        if good.get("status") in ("returned", "exited") and good.get("ops") is not None:
             muts = mutations_under(good["ops"], outs)
             if muts:
                 viols.append(({"class": "output_touched_despite_error", "location": "as_generated", "first": (muts[0]["op"] + " " + muts[0]["path"]).replace("/w/", "")[:160]},
@@ -297,6 +297,8 @@ def main():
             totals["runs"] += stats["runs"]
             if stats["skipped"] == "generator_rejected":
                 totals["generator_rejected"] += 1
+                for rec, doc in viols:          # (it failed on the package as generated and wrote all the same)
+                    check.report(rec, doc)
                 continue
             for k in ("faults_fired", "fault_absorbed", "fault_reported", "fault_before_first_write"):
                 totals[k] += stats.get(k, 0)
